@@ -850,9 +850,105 @@ Definition bcase_ok (k : bcase) : bool :=
   etxss_eqb rs (ob_receipts k) && etxs_eqb bl (ob_block k) &&
   let (rs', bl') := process_fresh (b_txs k) in etxss_eqb rs' (ob_receipts k) && etxs_eqb bl' (ob_block k).
 
-Inductive case := KE (k : ecase) | KU (k : ucase) | KB (k : bcase).
-Definition case_id (x : case) : N := match x with KE k => k_id k | KU k => u_id k | KB k => b_id k end.
-Definition case_ok (x : case) : bool := match x with KE k => ecase_ok k | KU k => ucase_ok k | KB k => bcase_ok k end.
+
+(* ---------- lockup precompile: ClaimCoinbaseLockup (core/vm/contracts.go:ClaimCoinbaseLockup) ----------
+   The coinbase-lockup ledger (rawdb, read through evm.Batch first) is a list of records keyed by
+   (owner contract, beneficiary miner, lockup byte, epoch); rawdb.ReadCoinbaseLockup yields (0, 0, 0) for an
+   absent or batch-deleted key.  The delegate of a record is not modelled (the claim does not use it).
+   request = (miner, to, lockup byte, epoch, ETX gas limit < 2^64) parsed from the 53-byte input;
+   height = Context.BlockNumber (the two uint32 conversions of the Go code are written out). *)
+Record lrec := mkLRec { l_bal : N; l_unlock : N; l_elems : N }.
+Definition lkey := (N * N * N * N)%type.
+Definition lkey_eqb (a b : lkey) : bool :=
+  match a, b with (o, m, l, e), (o', m', l', e') => (o =? o') && (m =? m') && (l =? l') && (e =? e') end.
+Fixpoint lget (k : lkey) (l : list (lkey * lrec)) : option lrec :=
+  match l with
+  | [] => None
+  | (k', r) :: l' => if lkey_eqb k' k then Some r else lget k l'
+  end.
+Fixpoint ldel (k : lkey) (l : list (lkey * lrec)) : list (lkey * lrec) :=
+  match l with
+  | [] => []
+  | (k', r) :: l' => if lkey_eqb k' k then ldel k l' else (k', r) :: ldel k l'
+  end.
+Definition W32 : N := 2 ^ 32.
+
+Record lres := mkLRes {
+  lr_ok : bool; lr_gas : N;
+  lr_led : list (lkey * lrec);        (* the ledger as ReadCoinbaseLockup sees it afterwards *)
+  lr_emit : option etx;
+  lr_undo : option (lkey * lrec)      (* entry added to evm.CoinbasesDeleted (+ one hash in CoinbaseDeletedHashes) *)
+}.
+
+Definition claim_lockup (c : ctx) (height owner gas : N) (led : list (lkey * lrec)) (idx miner to lb epoch gl : N) : lres :=
+  if gas <? gl then mkLRes false gas led None None                          (* ErrOutOfGas *)
+  else let gas1 := gas - gl in
+  let failr := mkLRes false gas1 led None None in
+  if negb (internal_quai (x_pfx c) owner) then failr                        (* ownerContract.InternalAndQuaiAddress *)
+  else if negb (in_scope (x_pfx c) miner) then failr                        (* beneficiaryMiner.InternalAddress *)
+  else if (height / CoinbaseEpochBlocks + 1) mod W32 <=? epoch then failr   (* epoch >= latestEpoch *)
+  else if negb (Bool.eqb (is_qi miner) (is_qi to)) then failr               (* different ledgers *)
+  else match lget (owner, miner, lb, epoch) led with
+  | None => failr                                                           (* trancheUnlockHeight == 0 *)
+  | Some r =>
+      if l_unlock r =? 0 then failr
+      else if height mod W32 <? l_unlock r then failr                       (* not unlocked yet *)
+      else if l_elems r =? 0 then failr
+      else (* rawdb.DeleteCoinbaseLockup(evm.Batch, ...) has happened *)
+        let led' := ldel (owner, miner, lb, epoch) led in
+        if MaxUint16 <? idx then mkLRes false gas1 led' None None
+        else mkLRes true gas1 led'
+               (Some (mkEtx to owner (l_bal r) idx EtxCoinbaseLockupType gl))
+               (Some ((owner, miner, lb, epoch), r))
+  end.
+
+(* core/vm/evm.go:Call, lockup branch, depth 0, value 0.  From ShaEquivalentDifficultyForkBlock on an error
+   restores the EVM snapshot: state, ETXCache, CoinbaseDeletedHashes, CoinbasesDeleted -- NOT evm.Batch, where
+   the record was deleted.  Result: (err == nil, leftover gas, ledger, ETX list, CoinbasesDeleted entries). *)
+Definition call_claim (c : ctx) (height owner gas : N) (led : list (lkey * lrec)) (etxs : list etx)
+  (miner to lb epoch gl : N) : bool * N * list (lkey * lrec) * list etx * list (lkey * lrec) :=
+  let r := claim_lockup c height owner gas led (lenN etxs) miner to lb epoch gl in
+  if lr_ok r then (true, lr_gas r, lr_led r, etxs ++ opt_list (lr_emit r), opt_list (lr_undo r))
+  else if ShaEquivalentDifficultyForkBlock <=? x_ptn c then (false, lr_gas r, lr_led r, etxs, [])
+  else (false, lr_gas r, lr_led r, etxs ++ opt_list (lr_emit r), opt_list (lr_undo r)).
+
+Definition lrec_eqb (a b : lrec) : bool :=
+  (l_bal a =? l_bal b) && (l_unlock a =? l_unlock b) && (l_elems a =? l_elems b).
+Definition lentry_eqb (a b : lkey * lrec) : bool := lkey_eqb (fst a) (fst b) && lrec_eqb (snd a) (snd b).
+Fixpoint lentries_eqb (x y : list (lkey * lrec)) : bool :=
+  match x, y with
+  | [], [] => true
+  | a :: x', b :: y' => lentry_eqb a b && lentries_eqb x' y'
+  | _, _ => false
+  end.
+(* what ReadCoinbaseLockup answers for key k *)
+Definition lread (k : lkey) (l : list (lkey * lrec)) : lrec :=
+  match lget k l with Some r => r | None => mkLRec 0 0 0 end.
+
+(* a case of the fourth family: a top-level Call to the lockup contract with a 53-byte claim request;
+   observed: err == nil, leftover gas, ReadCoinbaseLockup of every stored key and of the requested key afterwards,
+   the ETX cache beyond the prefill, the entries of evm.CoinbasesDeleted (sorted by key) *)
+Record lcase := mkLCase {
+  lc_id : N; lc_pfx : N; lc_ptn : N; lc_height : N; lc_owner : N; lc_gas0 : N;
+  lc_led : list (lkey * lrec); lc_prefill : N;
+  lc_miner : N; lc_to : N; lc_lb : N; lc_epoch : N; lc_gl : N;
+  ol_ok : bool; ol_gas : N; ol_reads : list (lkey * lrec); ol_etxs : list etx; ol_undo : list (lkey * lrec)
+}.
+Definition lcase_ok (k : lcase) : bool :=
+  let c := mkCtx (lc_pfx k) (lc_ptn k) 0 1 [] in
+  let pre := repeatN dummy_etx (N.to_nat (lc_prefill k)) [] in
+  match call_claim c (lc_height k) (lc_owner k) (lc_gas0 k) (lc_led k) pre (lc_miner k) (lc_to k) (lc_lb k) (lc_epoch k) (lc_gl k) with
+  | (ok, g, led, etxs, undo) =>
+      Bool.eqb ok (ol_ok k) && (g =? ol_gas k) &&
+      forallb (fun x : lkey * lrec => lrec_eqb (lread (fst x) led) (snd x)) (ol_reads k) &&
+      (lenN (ol_reads k) =? lenN (lc_led k) + 1) &&
+      etxs_eqb (skipn (N.to_nat (lc_prefill k)) etxs) (ol_etxs k) &&
+      lentries_eqb undo (ol_undo k)
+  end.
+
+Inductive case := KE (k : ecase) | KU (k : ucase) | KB (k : bcase) | KL (k : lcase).
+Definition case_id (x : case) : N := match x with KE k => k_id k | KU k => u_id k | KB k => b_id k | KL k => lc_id k end.
+Definition case_ok (x : case) : bool := match x with KE k => ecase_ok k | KU k => ucase_ok k | KB k => bcase_ok k | KL k => lcase_ok k end.
 
 Definition mismatches (cs : list case) : list N :=
   map case_id (filter (fun k => negb (case_ok k)) cs).
